@@ -25,7 +25,7 @@ EXPLANATION = (
     " (C20.7) also annuity closed forms before / after / around an XIRR that does not converge (numpy's process-wide error state modelled), IRR over a row, a column and blocks.")
 NOT_DECIDED = ("numeric accuracy of numpy / numpy_financial beyond the witness rows; what scipy's iteration returns when no root exists or the "
                "iteration leaves the domain (the conversion of its RuntimeError to #NUM! is not witnessed)")
-TRUSTED = ['numpy_financial.pv/pmt/irr parameter conventions', 'scipy.optimize.newton signature', 'workbook scenarios: pandas storage of range arrays as row-major rows, numpy on Python numbers (IEEE results, 64-bit integer wrap), dateutil.parser.parse rejecting texts that are no dates, openpyxl address arithmetic, inspect.signature built from the FunctionDef', "scipy.optimize.newton without derivative = the library's secant iteration", 'pandas DataFrame from a dict of lists: column access, boolean-mask rows, stable sort_values']
+TRUSTED = ['numpy_financial.pv / pmt closed forms (incl. the 0/0 the library computes at rate 0), irr as the root of the net present value by bisection', "numpy's process-wide floating point error state (seterr / errstate)", 'numpy_financial.pv/pmt/irr parameter conventions', 'scipy.optimize.newton signature', 'workbook scenarios: pandas storage of range arrays as row-major rows, numpy on Python numbers (IEEE results, 64-bit integer wrap), dateutil.parser.parse rejecting texts that are no dates, openpyxl address arithmetic, inspect.signature built from the FunctionDef', "scipy.optimize.newton without derivative = the library's secant iteration", 'pandas DataFrame from a dict of lists: column access, boolean-mask rows, stable sort_values']
 
 FUNCS = ('IRR', 'NPV', 'PMT', 'PV', 'SLN', 'XIRR', 'XNPV')
 PARAM_EXCEPTIONS = {
